@@ -176,11 +176,37 @@ func validateResponseHeader(headerName string, headerRef *openapi3.HeaderRef, in
 	}
 
 	if headerRef.Value.Schema == nil {
-		// A header defined by content has no schema to decode its value with: check presence only.
-		if _, found = input.Header[http.CanonicalHeaderKey(headerName)]; !found && headerRef.Value.Required {
-			return &ResponseError{
-				Input:  input,
-				Reason: fmt.Sprintf("response header %q missing", headerName),
+		// A header defined by content
+		var values []string
+		if values, found = input.Header[http.CanonicalHeaderKey(headerName)]; !found {
+			if headerRef.Value.Required {
+				return &ResponseError{
+					Input:  input,
+					Reason: fmt.Sprintf("response header %q missing", headerName),
+				}
+			}
+			return nil
+		}
+		// Its value is decoded the way a parameter defined by content is, when that is possible
+		// (one media type, application/json, with a schema); otherwise its presence is all that is checked.
+		content := headerRef.Value.Content
+		if mt := content.Get("application/json"); len(content) == 1 && mt != nil && mt.Schema != nil && mt.Schema.Value != nil && len(values) == 1 {
+			parameter := headerRef.Value.Parameter
+			parameter.In, parameter.Name = openapi3.ParameterInHeader, headerName
+			value, schema, err := defaultContentParameterDecoder(&parameter, values)
+			if err != nil {
+				return &ResponseError{
+					Input:  input,
+					Reason: fmt.Sprintf("unable to decode header %q value", headerName),
+					Err:    err,
+				}
+			}
+			if err = schema.VisitJSON(value, opts...); err != nil {
+				return &ResponseError{
+					Input:  input,
+					Reason: fmt.Sprintf("response header %q doesn't match schema", headerName),
+					Err:    err,
+				}
 			}
 		}
 		return nil
